@@ -24,6 +24,8 @@ import (
 	"sort"
 	"strings"
 	"unsafe"
+
+	"golang.org/x/tools/go/ssa"
 )
 
 type lockMode int
@@ -385,5 +387,66 @@ func (i *interpreter) lockOp(m value, mode lockMode, acquire bool) {
 		i.race.held[a] = mode
 	} else {
 		delete(i.race.held, a)
+	}
+}
+
+const ulidPkgPath = "github.com/titpetric/vuego/internal/ulid"
+
+// packages whose functions are replaced by a model as a whole
+var stubbedPackages = map[string]bool{ulidPkgPath: true}
+
+// stubStateAccess keeps the model of a stubbed package honest about shared
+// state. The model stands for stateless code. It is re-checked against the
+// package's current SSA on every call: if the real package declares package
+// variables, a call is taken to read and write each of them; unless some
+// function of the package acquires a mutex, the accesses are logged without
+// a lock (a candidate the native race detector then confirms or refutes).
+func (i *interpreter) stubStateAccess(fr *frame, path string) {
+	rt := i.race
+	if rt == nil || !rt.active {
+		return
+	}
+	var pkg *ssa.Package
+	for _, p := range i.prog.AllPackages() {
+		if p.Pkg.Path() == path {
+			pkg = p
+			break
+		}
+	}
+	if pkg == nil {
+		return
+	}
+	var globals []*ssa.Global
+	locks := false
+	var names []string
+	for name := range pkg.Members {
+		names = append(names, name)
+	}
+	sort.Strings(names)
+	for _, name := range names {
+		switch m := pkg.Members[name].(type) {
+		case *ssa.Global:
+			if !strings.HasPrefix(m.Name(), "init$") {
+				globals = append(globals, m)
+			}
+		case *ssa.Function:
+			for _, b := range m.Blocks {
+				for _, in := range b.Instrs {
+					if c, ok := in.(ssa.CallInstruction); ok {
+						if callee := c.Common().StaticCallee(); callee != nil && strings.HasSuffix(callee.String(), "Mutex).Lock") {
+							locks = true
+						}
+					}
+				}
+			}
+		}
+	}
+	if locks {
+		return
+	}
+	for _, g := range globals {
+		addr := cellAddr(i.globalCell(g))
+		rt.mark(addr, pkg.Pkg.Name()+"."+g.Name()+" (state behind a modelled package)")
+		i.raceAccess(addr, true, fr, g.Pos())
 	}
 }
